@@ -166,7 +166,60 @@ def describe(c, o):
     return {"object": "%s/%d" % (f(c["a"]), c["p"]), "form": c["form"], "impl [addr,network,plen,netmask,hostmask,last,numhosts]": o["vals"], "vs_ipaddress": o["std"] or "agree"}
 
 
-STREAMS = [Stream("values", gen_values, run_values, lit_values,
+# ------------------------------------------------------------------ IPv4 text: model (coq/Model/IPText.v) vs IPv4Obj
+def gen_v4text(rng, tier, escalate):
+    big = tier == "thorough" or escalate
+    out = set()
+    octs = ["0", "1", "9", "10", "99", "100", "199", "200", "249", "250", "255", "256", "260", "300", "999", "00", "01", "010", "1000", "", "a", "-1", " 1", "\u0661"]
+    def q(): return ".".join(rng.choice(octs[:11]) for _ in range(4))
+    masks = [str(ipaddress.IPv4Network((0, p)).netmask) for p in range(33)] + [str(ipaddress.IPv4Network((0, p)).hostmask) for p in range(33)] + \
+            ["255.0.255.0", "255.255.255.254", "0.0.0.1", "255.255.255.00", "255.255.255.01", "256.0.0.0", "128.0.0.1"]
+    lens = [str(i) for i in range(34)] + ["00", "024", "032", "033", "40", "-1", "", "2 4", "+8", "\u0663"]
+    seps = [" ", "  ", "\t", " \t ", "/", " /", "/ ", "\n", "\r", "\x0b", "\xa0", "\u2003", "//", ""]
+    n = 4000 if big else 1500
+    for _ in range(n):
+        a = q()
+        k = rng.random()
+        if k < 0.15:
+            s = a
+        elif k < 0.45:
+            s = a + "/" + rng.choice(lens)
+        elif k < 0.8:
+            s = a + rng.choice(seps) + rng.choice(masks)
+        else:
+            s = ".".join(rng.choice(octs) for _ in range(rng.choice([3, 4, 4, 4, 5]))) + rng.choice(["", "/24", " 255.0.0.0"])
+        if rng.random() < 0.3:
+            s = rng.choice([" ", "\t", "\n", "  ", "\xa0"]) + s + rng.choice([" ", "", "\n", "\t "])
+        out.add(s)
+    for b in ["10.1.2.3/24", "10.1.2.3 255.255.255.0", "10.1.2.3/255.255.255.0", "192.168.1.1", " 1.0.0.1/8 ", "10.1.2.3 0.0.0.255"]:
+        out.add(b)
+        for s in _neighbours(b, "0123456789./ x-", rng, 100000 if big else 250):
+            out.add(s)
+    return [{"s": s} for s in sorted(out)]
+
+
+def run_v4text(c):
+    from ciscoconfparse2.ccp_util import IPv4Obj
+    return _impl(IPv4Obj, c["s"])
+
+
+def lit_v4text(c, o):
+    return "(%s, %s)" % (common.strlit(c["s"]), "None" if o is None else "(Some (%s, %s))" % (common.zlit(o[0]), common.zlit(o[1])))
+
+
+def nt_v4text(c, o):
+    s = c["s"]
+    if o is not None:
+        return ("ok", s)
+    if s.count(".") >= 3 and any(ch.isdigit() for ch in s):
+        return ("near-miss", s)
+    return None
+
+
+PRE = "From Coq Require Import ZArith List NArith. Import ListNotations. Require Import CCP.Corr.C11. Open Scope Z_scope."
+STREAMS = [Stream("v4text", gen_v4text, run_v4text, lit_v4text, PRE, "list N * option (Z * Z)", "agree11t", show="model11t", nontrivial=nt_v4text,
+                  describe=lambda c, o: {"text": c["s"], "impl (addr, plen)": o}),
+           Stream("values", gen_values, run_values, lit_values,
                   "From Coq Require Import ZArith List. Import ListNotations. Require Import CCP.Corr.C11. Open Scope Z_scope.",
                   "Z * Z * Z * list Z", "agree11", show="model11", nontrivial=nt_values, describe=describe)]
 
